@@ -72,6 +72,10 @@ struct FaultFmt {
     fail_end: bool,
     fail_unit: Option<usize>,
     units: usize,
+    starts: usize,
+    ends: usize,
+    /// bytes in the buffer when message_start was (last) called
+    len_at_start: usize,
     err: Error,
 }
 
@@ -92,12 +96,15 @@ impl scpi::parser::response::Formatter for FaultFmt {
         scpi::parser::response::Formatter::len(&self.inner)
     }
     fn message_start(&mut self) -> scpi::error::Result<()> {
+        self.starts += 1;
+        self.len_at_start = self.inner.len();
         if self.fail_start {
             return Err(self.err);
         }
         self.inner.message_start()
     }
     fn message_end(&mut self) -> scpi::error::Result<()> {
+        self.ends += 1;
         if self.fail_end {
             return Err(self.err);
         }
@@ -113,11 +120,26 @@ impl scpi::parser::response::Formatter for FaultFmt {
     }
 }
 
-fn run_fault_fmt(bytes: &[u8], plans: &[UnitPlan], mut fmt: FaultFmt) -> Outcome {
+fn run_fault_fmt(bytes: &[u8], plans: &[UnitPlan], fmt: FaultFmt) -> Outcome {
+    run_fault_fmt_counts(bytes, plans, fmt).0
+}
+
+/// (outcome, message_start calls, response_unit calls, message_end calls, buffer length at the last message_start)
+fn run_fault_fmt_counts(bytes: &[u8], plans: &[UnitPlan], mut fmt: FaultFmt) -> (Outcome, usize, usize, usize, usize) {
     let mut dev = LogDev::with_plan(plans.to_vec());
     let mut ctx = Context::default();
     let result = FIXTREE.run(bytes, &mut dev, &mut ctx, &mut fmt);
-    Outcome { result, calls: dev.calls.iter().map(|c| (c.leaf, c.query)).collect(), errors: dev.errors, resp_len: fmt.inner.len() }
+    (Outcome { result, calls: dev.calls.iter().map(|c| (c.leaf, c.query)).collect(), errors: dev.errors, resp_len: fmt.inner.len() }, fmt.starts, fmt.units, fmt.ends, fmt.len_at_start)
+}
+
+/// Run a message with a transparent foreign formatter that counts the control calls:
+/// (result, buffer, message_start calls, response_unit calls, message_end calls, buffer length at the last message_start).
+pub fn control_call_counts(bytes: &[u8], plans: &[UnitPlan]) -> (Result<(), Error>, Vec<u8>, usize, usize, usize, usize) {
+    let mut fmt = FaultFmt { inner: Vec::new(), fail_start: false, fail_end: false, fail_unit: None, units: 0, starts: 0, ends: 0, len_at_start: 0, err: Error::new(scpi::error::ErrorCode::OutOfMemory) };
+    let mut dev = LogDev::with_plan(plans.to_vec());
+    let mut ctx = Context::default();
+    let result = FIXTREE.run(bytes, &mut dev, &mut ctx, &mut fmt);
+    (result, fmt.inner, fmt.starts, fmt.units, fmt.ends, fmt.len_at_start)
 }
 
 fn expect_calls(case: &Case, upto: usize) -> Vec<(usize, bool)> {
@@ -300,7 +322,7 @@ pub fn check(case: &Case, obs: &Obs) -> CheckResult {
     // 9. a foreign formatter refusing message_start / the j-th response_unit / message_end
     {
         let err = case.inject.build();
-        let mk = || FaultFmt { inner: Vec::new(), fail_start: false, fail_end: false, fail_unit: None, units: 0, err };
+        let mk = || FaultFmt { inner: Vec::new(), fail_start: false, fail_end: false, fail_unit: None, units: 0, starts: 0, ends: 0, len_at_start: 0, err };
         let o = run_fault_fmt(&r.bytes, &case.plans, FaultFmt { fail_start: true, ..mk() });
         runs += 1;
         obs.label("fault: formatter refuses message_start");
@@ -321,8 +343,14 @@ pub fn check(case: &Case, obs: &Obs) -> CheckResult {
             judge("formatter refuses message_end", &txt, &o, Ok(err), &all, &all)?;
         }
         // and the same wrapper refusing nothing behaves like the plain buffer
-        let o = run_fault_fmt(&r.bytes, &case.plans, mk());
+        let (o, starts, units, ends, len_at_start) = run_fault_fmt_counts(&r.bytes, &case.plans, mk());
         runs += 1;
+        // the control-call protocol a formatter with side effects relies on: message_start once, before any
+        // output; one response_unit per executed query; message_end once iff something was written
+        let n_queries = case.msg.units.iter().filter(|u| u.header.query).count();
+        ensure!(starts == 1 && len_at_start == 0, "formatter-protocol", "{txt:?}: message_start was called {starts} times (buffer held {len_at_start} bytes at the last call); once, before any output, is the protocol");
+        ensure!(units == n_queries, "formatter-protocol", "{txt:?}: response_unit was called {units} times for {n_queries} query units");
+        ensure!(ends == (full_len > 0) as usize, "formatter-protocol", "{txt:?}: message_end was called {ends} times for a response of {full_len} bytes");
         ensure!(o.result.is_ok() && o.errors.is_empty() && o.resp_len == full_len, "foreign-formatter", "{txt:?}: transparent wrapper formatter: result {:?}, {} hook calls, {} bytes (expected {full_len})", o.result, o.errors.len(), o.resp_len);
     }
     obs.executions(runs - 1);
